@@ -133,6 +133,10 @@ def scheduler_inputs(rng, n):
         rng.shuffle(perm)
         rec = {"bounds": [rec["bounds"][j] for j in perm],
                "pats": [{"A": [[row[j] for j in perm] for row in p["A"]], "b": list(p["b"])} for p in rec["pats"]]}
+        if rng.random() < 0.35:
+            # constant offsets (shifted windows): operands with the same matrix still differ
+            for p in rec["pats"]:
+                p["b"] = [rng.choice([0, 0, 1, 2]) for _ in p["b"]]
         checks = rng.choice([[], ["pos"], ["mem"], ["pos", "mem"]])
         out.append((t, rec, sizes, checks))
     return out
